@@ -8,7 +8,7 @@
    check reports the F-17a / F-17c inputs. *)
 From Coq Require Import List NArith Arith Bool.
 From PP Require Import Model.Str Model.Regex Gen.GenC17 Model.ReGen Model.WordModel Model.OneOf Model.CompRe.
-From PP Require Import Proofs.RegexProofs Proofs.ReGenProofs Proofs.WordProofs Proofs.OneOfProofs Proofs.CompReProofs.
+From PP Require Import Proofs.RegexProofs Proofs.ReGenProofs Proofs.WordProofs Proofs.OneOfProofs Proofs.CompReProofs Proofs.CompReProofs2.
 Import ListNotations.
 
 (* ================================================================== Word *)
@@ -130,6 +130,18 @@ Example C17_oneof_instance :
   reorder true [[97]; [65; 66]; [97; 98]]%N = Some [[65; 66]; [97]]%N.
 Proof. vm_compute. repeat split. Qed.
 
+(* the loop exactly as helpers.py writes it (an index i into the list, `del symbols[i + j + 1]`, `symbols.insert(i, other)`)
+   computes what the split-level `reorder` of the theorems above computes, with the same fuel *)
+Theorem C17_oneof_index_loop : forall (cl : bool) (syms : list str),
+  reorder_ix cl (reorder_fuel syms) syms 0 = reorder cl syms.
+Proof. exact reorder_ix_eq. Qed.
+
+Example C17_oneof_index_loop_instance :
+  reorder_ix false (reorder_fuel [[60]; [61]; [60; 61]; [60]; [60; 61; 62]]%N) [[60]; [61]; [60; 61]; [60]; [60; 61; 62]]%N 0 =
+    Some [[60; 61; 62]; [60; 61]; [60]; [61]]%N /\
+  reorder_ix true (reorder_fuel [[97]; [65; 66]; [97; 98]]%N) [[97]; [65; 66]; [97; 98]]%N 0 = Some [[65; 66]; [97]]%N.
+Proof. vm_compute. split; reflexivity. Qed.
+
 (* use_regex=True (alternation of escaped literals, or the character class when all symbols are single characters,
    IGNORECASE when caseless) finds exactly the first listed symbol that matches: same end, same symbol.
    _partial: as_keyword=True is excluded (\b vs Keyword's identifier characters, C17_oneof_keyword_refuted). *)
@@ -137,6 +149,14 @@ Theorem C17_oneof_regex_partial : forall (cl : bool) (syms : list str) (s : str)
   oneof_regex_path cl false syms s loc =
   match match_first cl syms s loc with Some w => Some (loc + length w) | None => None end.
 Proof. exact oneof_regex_agrees. Qed.
+
+(* caseless=True instance: one_of(["abc", "ab", "A"], caseless=True) on "xABc" at 1 and on "xaB" at 1 (IGNORECASE regex) *)
+Example C17_oneof_regex_caseless_instance :
+  oneof_regex_path true false [[97; 98; 99]; [97; 98]; [65]]%N [120; 65; 66; 99]%N 1 = Some 4 /\
+  match_first true [[97; 98; 99]; [97; 98]; [65]]%N [120; 65; 66; 99]%N 1 = Some [97; 98; 99]%N /\
+  oneof_regex_path true false [[97; 98; 99]; [97; 98]; [65]]%N [120; 97; 66]%N 1 = Some 3 /\
+  oneof_regex_path true false [[97]; [66]]%N [98]%N 0 = Some 1.
+Proof. vm_compute. repeat split. Qed.
 
 (* as_keyword: one_of("a", as_keyword=True) on "a$": the regex \b(?:a)\b matches, Keyword("a") does not ($ is an
    identifier character for Keyword, not a word character for \b) *)
@@ -170,8 +190,7 @@ Proof. exact srange_inverse. Qed.
 
 (* make_compressed_re(words, max_level=0) (the non-recursive fallback: alternation of the escaped words, longest
    escaped text first, or one class when all words are single characters) fullmatches exactly the given words.
-   _partial: max_level >= 1 (the recursive prefix grouping) is not modelled in Coq; its real output is parsed and
-   run through the matcher by correspondence only. *)
+   _partial: max_level = 0 only; every level is C17_compressed_re_partial below. *)
 Theorem C17_compressed_re_level0_partial : forall (words : list str) (s : str),
   (forall w, In w words -> w <> []) ->
   (re_fullmatch (compressed0 words) s = true <-> In s words).
@@ -181,4 +200,67 @@ Example C17_compressed_re_instance :
   compressed0 [[97]; [97; 46; 98]; [97; 98; 99]; [97]]%N = ralt (map rlit [[97; 46; 98]; [97; 98; 99]; [97]]%N) /\
   re_fullmatch (compressed0 [[97]; [97; 46; 98]; [97; 98; 99]; [97]]%N) [97; 46; 98]%N = true /\
   re_fullmatch (compressed0 [[97]; [97; 46; 98]; [97; 98; 99]; [97]]%N) [97; 98]%N = false.
+Proof. vm_compute. repeat split. Qed.
+
+(* make_compressed_re(words, max_level) for EVERY max_level (0: the fallback above; >= 1: words grouped by first
+   character, the suffixes of a group sorted longest first, an empty suffix turned into a trailing `?`, single-character
+   suffixes into a class, otherwise a non-capturing group holding the recursive result while _level < max_level and the
+   flat alternation of the escaped suffixes at the last level): for every non-empty list of non-empty words
+   (duplicates, words that are prefixes of other words, any characters) the function returns a pattern (no ValueError)
+   whose AST is in the class of rm_correct, whose denotation from any position is exactly "one of the words stands
+   here", and which fullmatches exactly the given words.
+   _partial: the pattern is modelled as the AST that sre_parse gives for the emitted text (escaping at the text level
+   is C17_escape_literal plus correspondence), non_capturing_groups=False and one-shot iterators (F-17f) are outside. *)
+Theorem C17_compressed_re_partial : forall (words : list str) (max_level : nat),
+  words <> [] -> (forall w, In w words -> w <> []) ->
+  exists r, compressed_re words max_level = Some r /\ rep_ok r = true /\
+    (forall s i j, den r s i j <-> exists w, In w words /\ starts_at s i w = true /\ j = i + length w) /\
+    (forall s, re_fullmatch r s = true <-> In s words).
+Proof. exact compressed_re_correct. Qed.
+
+(* the other lists: ValueError exactly for no words / a list containing the empty word *)
+Theorem C17_compressed_re_raises : forall (words : list str) (max_level : nat),
+  compressed_re words max_level = None <-> words = [] \/ In [] words.
+Proof. exact compressed_re_none. Qed.
+
+(* ["if","ifdef","ifndef","in","int","else"]: level 2 gives else|i(?:f(?:ndef|def)?|nt?), level 1 gives
+   else|i(?:fndef|fdef|nt|f|n), level 3 sorts the innermost pair the other way round (def before ndef) *)
+Example C17_compressed_re_levels_instance :
+  let ws := [[105; 102]; [105; 102; 100; 101; 102]; [105; 102; 110; 100; 101; 102]; [105; 110]; [105; 110; 116];
+             [101; 108; 115; 101]]%N in
+  let r2 := RAlt (RSeq (RChr 101%N) (rlit [108; 115; 101]%N))
+                 (RSeq (RChr 105%N) (RGroup None
+                    (RAlt (RSeq (RChr 102%N) (ROpt Greedy (RGroup None (RAlt (rlit [110; 100; 101; 102]%N) (rlit [100; 101; 102]%N)))))
+                          (RSeq (RChr 110%N) (ROpt Greedy (RChr 116%N)))))) in
+  ws <> [] /\ has_empty ws = false /\
+  compressed_re ws 2 = Some r2 /\
+  compressed_re ws 1 = Some (RAlt (RSeq (RChr 101%N) (rlit [108; 115; 101]%N))
+                                  (RSeq (RChr 105%N) (RGroup None (ralt (map rlit
+                                     [[102; 110; 100; 101; 102]; [102; 100; 101; 102]; [110; 116]; [102]; [110]]%N))))) /\
+  (exists r3, compressed_re ws 3 = Some r3 /\ r3 <> r2 /\ map (re_fullmatch r3) ws = map (re_fullmatch r2) ws) /\
+  map (re_fullmatch r2) ws = [true; true; true; true; true; true] /\
+  map (re_fullmatch r2) [[105]; [105; 102; 100]; [105; 102; 110; 100; 101; 102; 102]; [101; 108; 115]; [105; 110; 116; 116]; []]%N =
+    [false; false; false; false; false; false] /\
+  compressed_re [[97; 46]; [97]; [97; 46]]%N 1 = Some (RSeq (RChr 97%N) (ROpt Greedy (RGroup None (RChr 46%N)))) /\
+  compressed_re [[97]; []]%N 2 = None.
+Proof.
+  cbv zeta. split; [discriminate|]. split; [reflexivity|]. split; [vm_compute; reflexivity|]. split; [vm_compute; reflexivity|].
+  split; [eexists; split; [vm_compute; reflexivity|split; [discriminate|vm_compute; reflexivity]]|].
+  vm_compute. repeat split.
+Qed.
+
+(* text level: re.escape(w) (a backslash before each character of re._special_chars_map) read back by the regex
+   parser's literal rules (`\c` for a non-alphanumeric c is the literal c, an unescaped non-metacharacter is itself,
+   anything else refused) is the word itself, for every word over all code points; and the sort key of the level-0
+   alternation is the length of that text *)
+Theorem C17_escape_literal : forall w : str, read_lit (re_escape w) = Some w.
+Proof. exact read_lit_escape. Qed.
+
+Theorem C17_escape_length : forall w : str, escaped_len w = length (re_escape w).
+Proof. exact escaped_len_spec. Qed.
+
+Example C17_escape_instance :
+  re_escape [97; 46; 98; 45; 32; 92]%N = [97; 92; 46; 98; 92; 45; 92; 32; 92; 92]%N /\
+  read_lit [97; 92; 46; 98; 92; 45; 92; 32; 92; 92]%N = Some [97; 46; 98; 45; 32; 92]%N /\
+  read_lit [97; 46]%N = None /\ read_lit [92; 100]%N = None.
 Proof. vm_compute. repeat split. Qed.
